@@ -39,6 +39,39 @@ class Unsupported(Exception):
     pass
 
 
+def consistent_intervals(guards):
+    """integer-interval consistency of literals `term <op> const` over the same term (len terms are >= 0)"""
+    dom = {}
+    for g, pol, _ in guards:
+        if g[0] != "cmp" or g[3][0] != "c" or not isinstance(g[3][1], int) or isinstance(g[3][1], bool):
+            continue
+        op, t, k = g[1], g[2], g[3][1]
+        if op not in ("Eq", "Lt", "LtE"):
+            continue
+        lo, hi, excl = dom.get(t, (0 if t[0] == "len" else None, None, set()))
+        if op == "Eq":
+            if pol:
+                lo = k if lo is None else max(lo, k)
+                hi = k if hi is None else min(hi, k)
+            else:
+                excl = excl | {k}
+        elif op == "LtE":
+            if pol:
+                hi = k if hi is None else min(hi, k)
+            else:
+                lo = k + 1 if lo is None else max(lo, k + 1)
+        elif op == "Lt":
+            if pol:
+                hi = k - 1 if hi is None else min(hi, k - 1)
+            else:
+                lo = k if lo is None else max(lo, k)
+        dom[t] = (lo, hi, excl)
+        if lo is not None and hi is not None:
+            if lo > hi or all(v in excl for v in range(lo, min(hi, lo + 8) + 1)) and hi - lo < 8:
+                return False
+    return True
+
+
 class Engine:
     def __init__(self, model: Model, inline_depth=4, split_bool=True, keep_props=(), inline_subobjects=False):
         self.M = model
@@ -133,7 +166,11 @@ class Engine:
             a, b, op = b, a, sw.get(op, op)
         if a[0] == "c" and b[0] == "c":
             try:
-                r = {"Eq": a[1] == b[1], "NotEq": a[1] != b[1], "Is": a[1] is b[1], "IsNot": a[1] is not b[1], "Lt": a[1] < b[1], "Gt": a[1] > b[1], "LtE": a[1] <= b[1], "GtE": a[1] >= b[1]}[op]
+                x, y = a[1], b[1]
+                r = {"Eq": lambda: x == y, "NotEq": lambda: x != y, "Is": lambda: x is y or (type(x) is type(y) and x == y and isinstance(x, (int, str, bool))),
+                     "IsNot": lambda: not (x is y or (type(x) is type(y) and x == y and isinstance(x, (int, str, bool)))),
+                     "Lt": lambda: x < y, "Gt": lambda: x > y, "LtE": lambda: x <= y, "GtE": lambda: x >= y,
+                     "In": lambda: x in y, "NotIn": lambda: x not in y}[op]()
                 return ("c", r)
             except Exception:
                 pass
@@ -201,6 +238,31 @@ class Engine:
             return sv[1]
         return None
 
+    def fresh_len_zero(self, ck):
+        """a freshly constructed object of class ck has len() == 0 (its __len__ is len(self.f) and f starts as an empty container)"""
+        M = self.M
+        m = M.find_method(ck, "__len__")
+        if not m:
+            return False
+        body = [s for s in m.node.body if not (isinstance(s, ast.Expr) and isinstance(s.value, ast.Constant))]
+        if len(body) != 1 or not isinstance(body[0], ast.Return):
+            return False
+        e = body[0].value
+        if not (isinstance(e, ast.Call) and isinstance(e.func, ast.Name) and e.func.id == "len" and len(e.args) == 1):
+            return False
+        a = e.args[0]
+        if not (isinstance(a, ast.Attribute) and isinstance(a.value, ast.Name) and a.value.id == "self"):
+            return False
+        for k in M.mro(ck):
+            init = M.classes[k].field_inits.get(a.attr)
+            if init is not None:
+                if isinstance(init, ast.Call) and isinstance(init.func, ast.Name) and init.func.id in ("bytearray", "list", "bytes", "dict", "set") and not init.args:
+                    return True
+                if isinstance(init, (ast.List, ast.Dict, ast.Tuple)) and not getattr(init, "elts", getattr(init, "keys", [])):
+                    return True
+                return False
+        return False
+
     def inline_pure(self, m: Func, recv, args, p, fr):
         """inline a property/method whose body is straight-line `return expr` (after docstring)."""
         body = [s for s in m.node.body if not (isinstance(s, ast.Expr) and isinstance(s.value, ast.Constant))]
@@ -231,6 +293,8 @@ class Engine:
                         r = self.inline_pure(m, args[0], [], p, fr)
                         if r is not None:
                             return r
+                if args[0][0] == "new" and self.version(args[0], p) == 0 and self.fresh_len_zero(args[0][1]):
+                    return ("c", 0)
                 return ("len", args[0], self.version(args[0], p))
             ck = M.lookup_class_name(fr["fn"].mod, f.id)
             if ck:
@@ -317,6 +381,8 @@ class Engine:
             for g, gp, _ in q.guards:
                 if g == atom:
                     return [q] if gp == pol else []
+            if not consistent_intervals(q.guards + [(atom, pol, lineno)]):
+                return []
             q.guards.append((atom, pol, lineno))
             return [q]
 
